@@ -109,8 +109,9 @@ zix_expand_environment_strings(ZixAllocator* const allocator,
           break;
         }
       }
-    } else if (c == '~' && is_path_delim(string[s + 1U])) {
-      // Hit ~ before delimiter or end of string (home directory reference)
+    } else if (c == '~' && is_path_delim(string[s + 1U]) &&
+               (!s || is_path_delim(string[s - 1U]))) {
+      // Hit ~ between delimiters or string ends (home directory reference)
       const char* const prefix     = string + start;
       const size_t      prefix_len = s - start;
       const char* const home       = find_env(zix_string("HOME"));
